@@ -66,6 +66,25 @@ def interesting(nodes):
     return s
 
 
+def cover_leaves(programs, per_leaf, rng):
+    """choose programs such that every leaf of the pool occurs in at least `per_leaf` of them (if available)"""
+    byleaf = {}
+    progs = [p for p in programs if not dag.unstable(p)]
+    rng.shuffle(progs)
+    for p in progs:
+        for n in p:
+            if not n['d']:
+                byleaf.setdefault(json.dumps([n['op'], n['p'], n['sh'], n['dt']]), []).append(p)
+    out, seen = [], set()
+    for leaf, ps in sorted(byleaf.items()):
+        for p in ps[:per_leaf]:
+            c = canon(p)
+            if c not in seen:
+                seen.add(c)
+                out.append(p)
+    return out
+
+
 def select(programs, k, rng, need_arg=False):
     progs = [p for p in programs if (not need_arg or any(n['op'] == 'Arg' for n in p)) and not dag.unstable(p)]
     rng.shuffle(progs)
@@ -208,12 +227,17 @@ LOOP_OPS = '{"LoopSum","LoopConcat","Take","Inflate","Multiply","Add","IntToFloa
 
 def corpus(rep, rng, tag, k, *, quick, need_arg=True, core_leaves='{1, 2, 13, 14, 22}', extra=()):
     """standard program corpus for the ArraySem-based checks: small exhaustive part + simulated full vocabulary + loop-heavy"""
-    progs = generate(rep, tag + '-exh', MaxNodes=5, MaxOps=2, MaxLeaves=3, Ops='CoreOps', LeafSet=core_leaves, EmitMin=2, exhaustive=True)
+    both = generate_multi(rep, tag + '-exh', [dict(MaxNodes=5, MaxOps=2, MaxLeaves=3, Ops='CoreOps', LeafSet=core_leaves),
+                                              # every leaf of the pool under every applicable single constructor
+                                              dict(MaxNodes=3, MaxOps=1, MaxLeaves=2, Ops='AllOps', LeafSet='AllLeaves')], EmitMin=1, exhaustive=True)
+    progs = [p for p in both[0] if sum(1 for n in p if n['d']) >= 2]
+    allleaves = both[1]
     sims = generate(rep, tag + '-sim', MaxNodes=12, MaxOps=7, MaxLeaves=5, EmitMin=3, simulate=150 if quick else 3000, depth=13, seed=rep.seed + 11)
     loops = generate(rep, tag + '-loops', MaxNodes=10, MaxOps=5, MaxLeaves=4, EmitMin=3, Ops=LOOP_OPS,
                      LeafSet='{1, 2, 8, 13, 14, 20, 22, 23}', simulate=150 if quick else 3000, depth=11, seed=rep.seed + 12)
     loops = [p for p in loops if any(n['op'] in ('LoopSum', 'LoopConcat') for n in p)]
     sel = select(progs, k // 3, rng, need_arg=need_arg) + select(sims, k // 3, rng, need_arg=need_arg) + select(loops, k // 3, rng)
+    sel += cover_leaves(allleaves, 5 if quick else 40, rng)
     for name, kw, sim in extra:
         sel += select(generate(rep, tag + '-' + name, EmitMin=2, simulate=sim, depth=kw['MaxNodes'] + 1, seed=rep.seed + 13, **kw), k // 6, rng)
     rep.constants['ExprBuilder'] = dict(exhaustive_programs=len(progs), simulate_programs=len(sims), loop_programs=len(loops), selected=len(sel))
